@@ -38,10 +38,14 @@ def plan(tier, seed):
                     tasks.append({"kind": "mix", "dt": dt, "q": q, "rows": rows, "cyclic": False, "lo": lo, "hi": min(n, lo + CH)})
         tasks.append({"kind": "modules", "dt": dt})
         tasks.append({"kind": "calib", "dt": dt})
+        for q in ("qint8", "qfloat8_e4m3fn", "qfloat8_e5m2", "qint4", "qint2"):
+            tasks.append({"kind": "repeat", "dt": dt, "q": q, "n": 48 if tier == "quick" else 300})
         # size ladder: more than 2^20 elements, every degenerate class present many times (block-wise / in-place fast paths)
         if dt == "float32" or tier == "thorough":
             for q in ("qint8", "qfloat8_e4m3fn", "qfloat8_e5m2", "qint4", "qint2"):
                 tasks.append({"kind": "mix", "dt": dt, "q": q, "rows": 1031, "g": 1024, "gs": 128, "cyclic": True, "lo": 0, "hi": 2, "shifts": 2})
+                if tier == "thorough" and dt == "float32":
+                    tasks.append({"kind": "mix", "dt": dt, "q": q, "rows": 4100, "g": 4224, "gs": 128, "cyclic": True, "lo": 0, "hi": 1, "shifts": 1})
     return tasks
 
 
@@ -83,6 +87,8 @@ def _mix_task(task, out):
                 fields = {"kind": "mix", "qtype": qname, "dtype": dtname, "near_max": has_max, "zero_row": "zeros" in names}
                 case = dict(task, only=[list(asg), axis, gs])
                 try:
+                    if x.numel() >= 1 << 20:
+                        num.poison(x.numel() * x.element_size(), x.numel())
                     q = quantize_weight(x, num.qt(qname), axis, gs) if affine else quantize_weight(x, num.qt(qname), axis)
                     dq = q.dequantize()
                 except Exception as e:  # noqa
@@ -119,6 +125,53 @@ def _mix_task(task, out):
 
 
 WQ = ["qint8", "qfloat8", "qfloat8_e4m3fn", "qfloat8_e5m2", "qint4", "qint2"]
+
+
+def _repeat_task(task, out):
+    """Repetition ladder: n same-shaped degenerate tensors are quantized and dequantized, every result is kept, and all of them
+    are judged at the end (a result must stay what it was when it was returned: no recycled buffers)."""
+    from optimum.quanto import quantize_weight
+
+    dtname, qname, n = task["dt"], task["q"], task["n"]
+    dt = num.DTYPES[dtname]
+    affine = qname in ("qint2", "qint4")
+    only = task.get("only")
+    names = [m for m in MIX if not m.startswith("near_max")]
+    for axis in (0, -1):
+        c = [axis]
+        if only and only != c:
+            continue
+        held = []
+        fields = {"kind": "repeat", "qtype": qname, "dtype": dtname}
+        case = dict(task, only=c)
+        out["evals"] += 1
+        out["points"] += 1
+        out["nontrivial"] += 1
+        try:
+            for i in range(n):
+                rows = [names[(i + k) % len(names)] for k in range(3)]
+                table = torch.stack([wq.gen_class(nm, 4, dtname, i + k) for k, nm in enumerate(rows)])
+                x = wq.fill((3, 4) if axis == 0 else (4, 3), axis, None, table, dt)
+                q = quantize_weight(x, num.qt(qname), axis)
+                d = q.dequantize()
+                out["calls"] += 1
+                held.append((i, rows, x, q, d, d.clone()))
+        except Exception as e:  # noqa
+            out["violations"].append(violation(PID, case, dict(fields, sub="raised"), f"raised: repetition ladder: {type(e).__name__}: {e}"))
+            continue
+        for i, rows, x, q, d, snap in held:
+            if not num.same_bits(d, snap):
+                out["violations"].append(violation(PID, case, dict(fields, sub="result_overwritten"), f"result_overwritten: the dequantized tensor #{i + 1} of {n} (classes {rows}) changed after later same-shaped dequantizations"))
+                break
+            if not bool(torch.isfinite(d).all()):
+                out["violations"].append(violation(PID, case, dict(fields, sub="nonfinite"), f"nonfinite: result #{i + 1} (classes {rows})"))
+                break
+            if "zeros" in rows:
+                r = rows.index("zeros")
+                row = d[r] if axis == 0 else d[:, r]
+                if bool((row != 0).any()):
+                    out["violations"].append(violation(PID, case, dict(fields, sub="zero_row"), f"zero_row: an all-zero row dequantizes to non-zero values in result #{i + 1}"))
+                    break
 
 
 def _modules_task(task, out):
@@ -281,7 +334,7 @@ def _calib_task(task, out):
 
 def _run(task):
     out = {"evals": 0, "nontrivial": 0, "points": 0, "calls": 0, "violations": [], "samples": [], "counters": {}}
-    {"mix": _mix_task, "modules": _modules_task, "calib": _calib_task}[task["kind"]](task, out)
+    {"mix": _mix_task, "modules": _modules_task, "calib": _calib_task, "repeat": _repeat_task}[task["kind"]](task, out)
     return out
 
 
